@@ -55,10 +55,12 @@ def wire(req):
     return refhap.tlv_dec(bytes(TLV.encode_list(req)))
 
 
-BREAKING = {"m2-flip", "m2-drop", "wrong-code", "m4-flip", "m4-drop-proof", "m4-other-proof", "m6-flip", "m6-drop-enc", "m6-wrong-key",
+BREAKING = {"m2-flip", "m2-drop", "wrong-code", "m4-flip", "m4-drop-proof", "m4-other-proof", "m4-truncate-proof", "m6-flip", "m6-drop-enc", "m6-wrong-key",
             "m6-wrong-label", "m6-wrong-signer", "m6-other-id-unsigned", "m6-other-ltpk-unsigned", "m6-transcript", "m6-drop-inner",
             "m6-ltpk-len", "m6-truncate", "m6-flip-inner"}
-PRESERVING = {"none", "m2-reorder", "m4-reorder", "m6-reorder", "m6-reorder-inner", "m2-drop-state", "m4-drop-state", "m6-drop-state"}
+# m6-dup-inner-other: a second, unsigned Identifier/LTPK besides the signed ones.  Which copy a decoder keeps is its own business, so the
+# exchange may fail or succeed - but a success must return exactly the signed identity (checked for every returned record).
+PRESERVING = {"none", "m6-dup-inner-other", "m2-reorder", "m4-reorder", "m6-reorder", "m6-reorder-inner", "m2-drop-state", "m4-drop-state", "m6-drop-state"}
 
 
 def run_case(case, R):
@@ -116,6 +118,11 @@ def run_case(case, R):
                 m4 = [(T_STATE, b"\x04"), (T_PROOF, acc.srp.M2)]
             elif name == "m4-flip":
                 m4 = [(t, flip(v, fault[1]) if t == T_PROOF else v) for t, v in m4]
+            elif name == "m4-truncate-proof":
+                n_ = 1 + fault[1] % 63
+                m4 = [(t, (v[-n_:] if fault[1] & 64 else v[:n_]) if t == T_PROOF else v) for t, v in m4]
+                if int.from_bytes(dict(m4)[T_PROOF], "big") == int.from_bytes(acc.srp.M2, "big"):
+                    name = "none"        # only zero bytes were dropped: numerically the same proof
             elif name == "m4-drop-proof":
                 m4 = [(t, v) for t, v in m4 if t != T_PROOF]
             elif name == "m4-other-proof":
@@ -160,6 +167,14 @@ def run_case(case, R):
                     inner = [(t, b"11:22:33:44:55:66" if t == T_ID else v) for t, v in inner]
                 elif name == "m6-other-ltpk-unsigned":    # signature by the real key, another key presented
                     inner = [(t, ed_pub(ed_from_seed(h("mallory", k))) if t == T_PK else v) for t, v in inner]
+                elif name == "m6-dup-inner-other":
+                    # a second, unsigned Identifier / LTPK next to the signed ones (not adjacent to them), in either order
+                    other_id, other_pk = b"66:55:44:33:22:11", ed_pub(ed_from_seed(h("mallory", k)))
+                    extra = [[(T_ID, other_id)], [(T_PK, other_pk)], [(T_ID, other_id), (T_PK, other_pk)]][fault[1] % 3]
+                    inner = (inner + extra) if fault[1] & 4 else ([x for x in extra] + [(T_SIG, dict(inner)[T_SIG])] + [x for x in inner if x[0] != T_SIG] if False else extra[:0] + inner + extra)
+                    if not fault[1] & 4:
+                        # unsigned values first, then the signature, then the signed values
+                        inner = extra + [(T_SIG, dict(acc.inner_m6())[T_SIG])] + [x for x in acc.inner_m6() if x[0] != T_SIG]
                 elif name == "m6-transcript":
                     order = [(1, 0, 2), (0, 2, 1), (2, 1, 0), (1, 2, 0), (2, 0, 1)][fault[1] % 5]
                     inner = acc.inner_m6(transcript=lambda ax, idb, pk: b"".join([(ax, idb, pk)[i] for i in order]))
@@ -184,6 +199,18 @@ def run_case(case, R):
             result = r.value
         except Exception as e:  # noqa: BLE001
             exc = e
+    if result is not None:
+        # whatever was returned must be exactly what the accessory's signature in M6 covers
+        try:
+            ax = refhap.hkdf_sha512(acc.srp.K, *refhap.PS_ASIGN)
+            sig = dict(acc.inner_m6())[T_SIG]
+            rid, rpk = result["AccessoryPairingID"].encode(), bytes.fromhex(result["AccessoryLTPK"])
+            if not refhap.ed_verify(rpk, sig, ax + rid + rpk) and name in PRESERVING | {"m6-dup-inner-other"}:
+                R.fail("C03.record-not-authenticated", f"{what}: returned id {rid!r} / LTPK {rpk.hex()[:16]}.. are not the ones the M6 signature covers", family=name)
+                return
+        except Exception as e:  # noqa: BLE001
+            R.fail("C03.record-inconsistent", f"{what}: {type(e).__name__}: {e} in {result!r:.300}")
+            return
     if name in BREAKING:
         if result is not None:
             R.fail("C03.forged-reply-accepted", f"{what}: pairing data returned", family=name)
@@ -274,6 +301,10 @@ def enum_families(tier):
             fl += [[name, f, b] for f in range(3) for b in ([0, 9, 100] if tier == "quick" else range(0, 512, 5))]
         elif name in ("m6-wrong-label", "m6-transcript", "m6-drop-inner", "m6-ltpk-len"):
             fl += [[name, p] for p in range(5)]
+        elif name == "m6-dup-inner-other":
+            fl += [[name, p] for p in range(8)]
+        elif name == "m4-truncate-proof":
+            fl += [[name, p] for p in ([0, 31, 62, 64, 64 + 31, 64 + 62, 64 + 55] if tier == "quick" else range(128))]
         elif name == "m6-truncate":
             fl += [[name, n] for n in range(0, 150, 25 if tier == "quick" else 2)]
         else:
@@ -292,7 +323,7 @@ SPEC = Property(
     P, "fault_enumeration",
     rule=("setup code x controller pairing id x accessory identity x injected SRP secrets and controller long-term key x one reply "
           "policy over M2/M4/M6: honest; accessory built with another code; bit flips of salt, B, State, server proof, M6 ciphertext/"
-          "tag and of the inner Identifier/LTPK/Signature; removed fields; M6 under another key or nonce label; inner signature by "
+          "tag and of the inner Identifier/LTPK/Signature; removed fields; server proof truncated to any prefix or suffix; a second unsigned Identifier/LTPK next to the signed ones; M6 under another key or nonce label; inner signature by "
           "another key, for another identifier or LTPK, or over a permuted transcript; missing inner fields; wrong-length LTPK; "
           "truncated M6; proof-preserving reorderings. Replies decoded the IP/CoAP way (expected list) and the BLE way. Non-trivial: "
           "every faulty policy, and honest runs that hit a leading-zero SRP value."),
